@@ -130,7 +130,7 @@ func FullRangeTests(p *core.Program, r *core.Report, rule string) {
 				case fn.Name() == "Equal" && len(c.Args) == 1 && isFull(info, c.Args[0]) && onOther:
 					ok = true
 				case fn.Name() == "IsAll" && onOther:
-					ok = true
+					why = "the excuse for a missing named port is `" + core.ExprStr(e) + "`: IsAll compares the named ports too, so an operand with the full range AND a named port of its own is not recognised as covering every number"
 				default:
 					if _, isIdx := ast.Unparen(ue.X).(*ast.IndexExpr); !isIdx {
 						why = "the excuse for a missing named port is `" + core.ExprStr(e) + "`, not equality of the operand's ports with the full range"
